@@ -392,6 +392,41 @@ fn directed(ctx: &Ctx) -> Vec<Case> {
     v
 }
 
+/// Rare-seed panics: key generation, one signature and its verification for many seeds.
+fn seed_sweep(ctx: &Ctx, rep: &mut Report) {
+    let n = u64::from(ctx.n(60_000, 1_500_000));
+    let seed = ctx.seed;
+    crate::engine::run_sweep(
+        rep,
+        "seed_sweep",
+        n,
+        false,
+        |i, st| {
+            let libr = libs()[(i % 3) as usize];
+            let v = gen::prg_bytes(crate::engine::hash_of(&(seed, "c13-sweep", i)), "xi", 64);
+            let xi: [u8; 32] = core::array::from_fn(|k| v[k]);
+            let rnd: [u8; 32] = core::array::from_fn(|k| v[32 + k]);
+            st.eval();
+            st.nontrivial_enumerated += 1;
+            let (pk, sk) = g("keygen_from_seed", || libr.keygen_from_seed(&xi))?;
+            let mode = gen::mode_of((i / 3 % 4) as u8);
+            let mut rng = TestRng::replay(&rnd);
+            let sig = match g_sign(&*sk, &mut rng, &v[..(i % 40) as usize], &v[40..40 + (i % 5) as usize], mode) {
+                Ok(Ok(s)) => s,
+                Ok(Err(_)) => return Ok(()),
+                Err(pi) => return Err(Fail::panic("sign", &pi)),
+            };
+            let _ = g_verify(&*pk, &v[..(i % 40) as usize], &sig, &v[40..40 + (i % 5) as usize], mode)?;
+            if i % 7 == 0 {
+                let _ = g("get_public_key", || sk.public_key())?;
+                let _ = g("sk.into_bytes", || sk.to_bytes())?;
+            }
+            Ok(())
+        },
+        |i| json!({"index": i, "seed": seed}),
+    );
+}
+
 pub fn run(ctx: &Ctx, rep: &mut Report) {
     rep.assume("built with debug-assertions and overflow-checks on (checked profile); a panic anywhere inside a public API call is a violation; a hang is reported as inconclusive by the watchdog of ./check");
     rep.assume("a non-terminating signing loop would surface as the u16 counter overflow panic after at most 16384 iterations");
@@ -399,6 +434,7 @@ pub fn run(ctx: &Ctx, rep: &mut Report) {
     let (max_len, max_msg) = if ctx.quick() { (9, 2048) } else { (25, 65_536) };
     let d = directed(ctx);
     run_list(rep, "directed", &d, |c, st| check(&root, c, st));
+    seed_sweep(ctx, rep);
     run_generated(ctx, rep, "sequences", ctx.n(24_000, 400_000), || strategy(max_len, max_msg), |c, st| check(&root, c, st));
 }
 
